@@ -40,6 +40,16 @@ pub struct ModelResult {
     pub probes: BTreeSet<&'static str>,
 }
 
+impl ModelResult {
+    /// Bounded liveness: with a finite data source the engine must finish within a number of
+    /// adapter events proportional to the work the model had to do. Where the model does not
+    /// speak (undefined semantics) its step count says nothing about the engine's work: a flat,
+    /// generous cap applies instead.
+    pub fn event_cap(&self) -> u64 {
+        if self.undefined.is_some() { 8_000_000 } else { 400 * self.steps + 200_000 }
+    }
+}
+
 pub struct Model<'a> {
     world: &'a World,
     args: &'a BTreeMap<String, FieldValue>,
